@@ -293,6 +293,8 @@ func c13Cmd(args []string) error {
 			canonH["X-Custom"] = ""
 		}
 
+		canonH["all:X-Custom"] = canonH["X-Custom"] // the map of all headers says the same
+
 		block := rng.Intn(6) == 0
 		if block {
 			hdrs = append(hdrs, [2]string{"X-Block", "1"})
